@@ -327,6 +327,13 @@ def closure_text(fx, fn, fl):
     txt = q.render(fn, top)
     for n in walk(top):
         if n['k'] == 'lambda':
+            for cap in n.get('caps', []):
+                if is_node(cap.get('init')):
+                    txt += ' ' + q.render(fn, cap['init'])
+                if cap.get('did') is not None and not cap.get('initcap'):
+                    ds = q.local_defs(fn, cap['did'])
+                    if len(ds) == 1:        # a local assigned more than once is not resolved
+                        txt += ' ' + q.render(fn, ds[0][1])
             for lf in fx.by_usr(n['fn']):
                 for c in lf.all_nodes():
                     if c['k'] in ('call', 'construct'):
